@@ -556,3 +556,33 @@ def r06_11(ctx):
         else:
             ctx.ok((short, 'dense-index'), sample=dict(fn=short, adaptor='Enumerate applied to the already filtered / complete sequence'))
     ctx.need(n >= 1, "enumerate() adaptors in wire:: functions")
+
+
+@rule('R02.13', ['C02', 'C01'], floor=1, clause='a pending fast retransmission with queued data always makes the socket want to transmit (it is not subject to the Nagle / window / congestion tests that follow)')
+def r02_13(ctx):
+    F = ctx.F
+    SOCK = 'socket::tcp::Socket'
+    b = ctx.method(SOCK, 'seq_to_transmit')
+    # edges that contradict the assumption "pending_fast_retransmit && !tx_buffer.is_empty()"
+    contra = lambda f: f[0] == 'bool' and ((f[2] is False and is_field(f[1], SOCK, 'pending_fast_retransmit'))
+                                           or (f[2] is True and is_call(strip(f[1]), '::is_empty') and any(l.endswith('.tx_buffer') for l in leafs(f[1]))))
+    cut = set(pass_edges(F, b, contra))
+    ctx.need(any(True for _ in cut), "tests of pending_fast_retransmit / tx_buffer.is_empty() in seq_to_transmit")
+    seen = b.reachable(cut_edges=cut)
+    rets = []
+    for bi in sorted(seen):
+        bl = b.blocks[bi]
+        if bl['cl']:
+            continue
+        for si, s in enumerate(bl['s']):
+            if s[0] == 'a' and s[1] == [0, []]:
+                rets.append((bi, si, s))
+        if bl['t'][0] == 'call' and bl['t'][3] == [0, []]:
+            rets.append((bi, None, None))
+    ctx.need(rets, "result stores of seq_to_transmit reachable with a pending fast retransmission")
+    bad = [(bi, si) for bi, si, s in rets if not (s is not None and s[2][0] == 'use' and s[2][1][0] == 'k' and s[2][1][2] is True)]
+    if bad:
+        ctx.bad("seq_to_transmit|fast-retransmit-not-unconditional", "with a fast retransmission pending and data queued, seq_to_transmit() can still answer from the "
+                "window / congestion / Nagle tests: after three duplicate ACKs nothing is resent, the timer goes idle and the connection stalls", body=b, bb=bad[0][0])
+    else:
+        ctx.ok(('seq_to_transmit', 'fast-retransmit'), sample=dict(fn='seq_to_transmit', under='pending_fast_retransmit && !tx_buffer.is_empty()', result='true'))
